@@ -1125,3 +1125,302 @@ func init() {
 	addRule("C18", "C18."+doc, func(c *Ctx) { poolEscapeRule(c, "C18.poolescape") })
 	addRule("C04", "C04."+doc, func(c *Ctx) { poolEscapeRule(c, "C04.poolescape") })
 }
+
+// ---- C17.keysame -------------------------------------------------------------------------------------------------------
+//
+// The connection remembers the key it is registered under, and its Close removes the cache entry of that remembered
+// key. keySameRule: wherever a connection is inserted into the driver's connection map, the key of the insert and the
+// value stored into the connection's key field (a field of the map's key type) are the same value — the same SSA
+// value, or two loads of one local variable that is not assigned in between. A cleaned / normalised copy used for the map
+// and the raw key kept in the connection make the last Close delete nothing: the dead connection stays cached and the
+// next open is handed a closed index.
+func keySameRule(c *Ctx, rule string) {
+	if c.a.DriverT == nil || c.a.FileConnT == nil {
+		return
+	}
+	var cache *types.Var
+	var keyT types.Type
+	if st, ok := c.a.DriverT.Underlying().(*types.Struct); ok {
+		for i := 0; i < st.NumFields(); i++ {
+			if m, ok := st.Field(i).Type().Underlying().(*types.Map); ok && namedOf(m.Elem()) == c.a.FileConnT {
+				cache, keyT = st.Field(i), m.Key()
+			}
+		}
+	}
+	if cache == nil {
+		return
+	}
+	// the connection's key field
+	var keyF *types.Var
+	if st, ok := c.a.FileConnT.Underlying().(*types.Struct); ok {
+		for i := 0; i < st.NumFields(); i++ {
+			if types.Identical(st.Field(i).Type(), keyT) {
+				if keyF != nil {
+					return // two candidates: the rule does not guess
+				}
+				keyF = st.Field(i)
+			}
+		}
+	}
+	if keyF == nil {
+		return // the connection does not remember its key (Close must then find it another way: C17.evict)
+	}
+	sameValue := func(a, b ssa.Value) bool {
+		if a == b {
+			return true
+		}
+		la, ok1 := a.(*ssa.UnOp)
+		lb, ok2 := b.(*ssa.UnOp)
+		if !ok1 || !ok2 || la.Op != token.MUL || lb.Op != token.MUL {
+			return false
+		}
+		al, ok := la.X.(*ssa.Alloc)
+		if !ok || lb.X != ssa.Value(al) {
+			return false
+		}
+		// no store into the variable after the earlier of the two loads
+		first, second := la, lb
+		if pointOf(lb).b == pointOf(la).b && pointOf(lb).i < pointOf(la).i || lb.Block() != la.Block() && lb.Block().Dominates(la.Block()) {
+			first, second = lb, la
+		}
+		_ = second
+		clean := true
+		// blocks reachable after the first load
+		after := map[*ssa.BasicBlock]bool{}
+		var walk func(b *ssa.BasicBlock)
+		walk = func(b *ssa.BasicBlock) {
+			if after[b] {
+				return
+			}
+			after[b] = true
+			for _, sc := range b.Succs {
+				walk(sc)
+			}
+		}
+		for _, sc := range first.Block().Succs {
+			walk(sc)
+		}
+		allInstrs(al.Parent(), func(i ssa.Instruction) {
+			st, ok := i.(*ssa.Store)
+			if !ok {
+				return
+			}
+			a := st.Addr
+			for k := 0; k < 6; k++ {
+				if fa, ok := a.(*ssa.FieldAddr); ok {
+					a = fa.X
+					continue
+				}
+				break
+			}
+			if a != ssa.Value(al) {
+				return
+			}
+			if after[st.Block()] || st.Block() == first.Block() && pointOf(st).i > pointOf(first).i {
+				clean = false // the variable may be assigned between the two reads
+			}
+		})
+		return clean
+	}
+	n := 0
+	for _, fn := range c.w.ModFuncs {
+		if c.w.pkgPathOf(fn) != pkgDriver {
+			continue
+		}
+		allInstrs(fn, func(i ssa.Instruction) {
+			mu, ok := i.(*ssa.MapUpdate)
+			if !ok || path(mu.Map).lastField() != cache {
+				return
+			}
+			n++
+			key := fmt.Sprintf("%s: insert#%d", safeFname(fn), n)
+			conn, isAlloc := peel(mu.Value).(*ssa.Alloc)
+			if !isAlloc {
+				c.r.undecided(rule, key, "the connection that is registered is not one allocated in this function: which key it remembers is not visible here", c.w.ipos(i))
+				return
+			}
+			var stored []ssa.Value
+			for _, r := range referrers(conn) {
+				if fa, ok := r.(*ssa.FieldAddr); ok && fieldOf(fa.X.Type(), fa.Field) == keyF {
+					for _, r2 := range referrers(fa) {
+						if st, ok := r2.(*ssa.Store); ok && st.Addr == ssa.Value(fa) {
+							stored = append(stored, st.Val)
+						}
+					}
+				}
+			}
+			if len(stored) != 1 {
+				c.r.undecided(rule, key, fmt.Sprintf("the registered connection's key field is assigned %d times in this function", len(stored)), c.w.ipos(i))
+				return
+			}
+			c.r.check(sameValue(mu.Key, stored[0]), rule, key, "the connection remembers the key it is registered under",
+				"the connection is registered under one key but remembers another (e.g. a cleaned path for the map, the raw one in the connection): its Close removes the entry of the remembered key, so the closed connection stays in the cache and the next open of the file is handed a connection whose index is closed", c.w.ipos(i))
+		})
+	}
+}
+
+func init() {
+	addRule("C17", "C17.keysame — where a connection is inserted into the driver's connection map, the key of the insert and the value stored into the connection's own key field are the same value (the same SSA value, or two loads of one local that is not assigned in between): Close deletes the entry of the remembered key.",
+		func(c *Ctx) { keySameRule(c, "C17.keysame") })
+}
+
+// ---- C06.required ------------------------------------------------------------------------------------------------------
+//
+// A file whose creation died before the last transaction has a data bucket but neither schema nor row counter; it is
+// rejected because decoding the absent schema item fails and the absent counter item has the wrong length.
+// requiredRule makes the open function keep it that way: in the function that assigns the Index's schema (row count),
+// every path to a return that may be successful passes the gob Decode (the binary decoding of the counter) — itself or
+// in a helper all of whose possibly successful returns pass it. `if len(item) == 0 { return &schema{}, nil }` ("an index
+// nothing was added to") accepts every committed prefix of an interrupted creation as an empty index.
+func requiredRule(c *Ctx, rule string) {
+	if c.a.IndexT == nil || c.a.SchemaT == nil {
+		return
+	}
+	definitelyError := func(ret *ssa.Return) bool {
+		n := len(ret.Results)
+		if n == 0 || !isErrorType(ret.Parent().Signature.Results().At(n-1).Type()) {
+			return false
+		}
+		e := retVals(ret)[n-1]
+		if isNilConst(e) {
+			return false
+		}
+		if call, ok := e.(*ssa.Call); ok {
+			switch calleeName(&call.Call) {
+			case "errors.New", "fmt.Errorf":
+				return true
+			}
+		}
+		if _, ok := e.(*ssa.MakeInterface); ok {
+			return true
+		}
+		for _, cm := range cmpsAt(ret) {
+			if cm.Op == token.NEQ && cm.X == e && cm.Y != nil && isNilConst(cm.Y) {
+				return true
+			}
+		}
+		return false
+	}
+	var succMust func(g *ssa.Function, pred func(ssa.Instruction) bool, depth int) bool
+	succMust = func(g *ssa.Function, pred func(ssa.Instruction) bool, depth int) bool {
+		if g == nil || g.Blocks == nil || depth < 0 {
+			return false
+		}
+		ip := func(i ssa.Instruction) bool {
+			if pred(i) {
+				return true
+			}
+			if call, ok := i.(*ssa.Call); ok {
+				if h := calleeFunc(&call.Call); h != nil && h != g && c.w.inModule(h) && succMust(h, pred, depth-1) {
+					return true
+				}
+				// db.View(func(tx) error { … }): the callback runs before View returns, and View returns its error
+				if syncCallbackReceivers[calleeName(&call.Call)] {
+					for _, a := range call.Call.Args {
+						var cb *ssa.Function
+						switch x := a.(type) {
+						case *ssa.MakeClosure:
+							cb, _ = x.Fn.(*ssa.Function)
+						case *ssa.Function:
+							cb = x
+						}
+						if cb != nil && succMust(cb, pred, depth-1) {
+							return true
+						}
+					}
+				}
+			}
+			return false
+		}
+		target := func(i ssa.Instruction) bool {
+			ret, ok := i.(*ssa.Return)
+			return ok && !isRecoverBlockReturn(ret) && !definitelyError(ret)
+		}
+		return c.fc.pathAvoiding(g, nil, target, ip) == nil
+	}
+	isDecode := func(i ssa.Instruction) bool {
+		call, ok := i.(*ssa.Call)
+		return ok && calleeName(&call.Call) == "(*encoding/gob.Decoder).Decode"
+	}
+	isUint := func(i ssa.Instruction) bool {
+		call, ok := i.(*ssa.Call)
+		if !ok {
+			return false
+		}
+		n := calleeName(&call.Call)
+		return strings.HasPrefix(n, "(encoding/binary.") && (strings.HasSuffix(n, ".Uint32") || strings.HasSuffix(n, ".Uint64"))
+	}
+	nS, nR := 0, 0
+	for _, fn := range c.w.ModFuncs {
+		if c.w.pkgPathOf(fn) != pkgRoot {
+			continue
+		}
+		// only what the open function reaches
+		top := fn
+		for top.Parent() != nil {
+			top = top.Parent()
+		}
+		inOpen := false
+		for _, f := range c.scope(c.a.OpenFromDB, 3) {
+			if f == top || f == fn {
+				inOpen = true
+			}
+		}
+		if !inOpen {
+			continue
+		}
+		var schemaStore, rowsStore ssa.Instruction
+		allInstrs(fn, func(i ssa.Instruction) {
+			st, ok := i.(*ssa.Store)
+			if !ok || i.Parent() != fn {
+				return
+			}
+			p := path(st.Addr)
+			f := p.lastField()
+			if f == nil || namedOf(p.Root.Type()) != c.a.IndexT && holderTypeOf(st.Addr) != c.a.IndexT {
+				return
+			}
+			if pt, ok := f.Type().Underlying().(*types.Pointer); ok && namedOf(pt.Elem()) == c.a.SchemaT {
+				schemaStore = i
+			}
+			if f == c.a.IdxRowsF {
+				rowsStore = i
+			}
+		})
+		if schemaStore != nil {
+			nS++
+			c.r.check(succMust(fn, isDecode, 2), rule, safeFname(fn)+": schema", "every possibly successful return of the function that assigns the index's schema has passed the gob Decode of the schema item",
+				"the function that assigns the index's schema can return without an error on a path that does not decode the schema item (an absent or empty item is accepted as `no columns`): a file whose creation died before its last transaction opens as an empty index instead of being rejected", c.w.ipos(schemaStore))
+		}
+		if rowsStore != nil {
+			nR++
+			c.r.check(succMust(fn, isUint, 2), rule, safeFname(fn)+": row counter", "every possibly successful return of the function that assigns the index's row count has passed the decoding of the counter item",
+				"the function that assigns the index's row count can return without an error on a path that does not decode the row-counter item (an absent item is accepted as 0 rows): a file whose creation died before its last transaction opens as an index without rows instead of being rejected", c.w.ipos(rowsStore))
+		}
+	}
+	if nS == 0 || nR == 0 {
+		c.r.undecided(rule, "<vacuity>", fmt.Sprintf("assignments of the index's schema / row count found in what the open function reaches: %d / %d", nS, nR))
+	}
+}
+
+// holderTypeOf: the named struct type of the object a field address is selected from (first FieldAddr base).
+func holderTypeOf(addr ssa.Value) *types.Named {
+	for k := 0; k < 8; k++ {
+		fa, ok := addr.(*ssa.FieldAddr)
+		if !ok {
+			return nil
+		}
+		if n := namedOf(fa.X.Type()); n != nil {
+			if _, isFA := fa.X.(*ssa.FieldAddr); !isFA {
+				return n
+			}
+		}
+		addr = fa.X
+	}
+	return nil
+}
+
+func init() {
+	addRule("C06", "C06.required — in the function that assigns the Index's schema (row count), every path to a return that may be successful passes the gob Decode of the schema item (the binary decoding of the counter item), itself or in a helper all of whose possibly successful returns pass it: an absent schema or counter is never accepted as an empty index.",
+		func(c *Ctx) { requiredRule(c, "C06.required") })
+}
